@@ -410,6 +410,8 @@ type RandCfg struct {
 	MaxTTL   int      `json:"maxttl"`
 	TickPct  int      `json:"tickpct"`
 	Seed     int64    `json:"seed"`
+	Race     int      `json:"race"`   // stress mode: number of expiry-race programs
+	Rounds   int      `json:"rounds"` // rounds per race program
 }
 
 var allOwners = []string{"A", "B", "C", "D"}
